@@ -548,7 +548,7 @@ func cmdCheck(args []string) int {
 	cov := map[string]interface{}{
 		"obligations":              totalObl,
 		"discharged":               totalOK,
-		"checker_cmd":              fmt.Sprintf("/verif/bin/gvc check -prop %s -tier %s", *prop, *tier),
+		"checker_cmd":              fmt.Sprintf("%s/bin/gvc check -prop %s -tier %s -verif %s", *verif, *prop, *tier, *verif),
 		"trusted_base":             trusted,
 		"samples":                  samples,
 		"functions_under_contract": fnsUnder,
